@@ -37,8 +37,8 @@ CLAIMED = {
   "note": 'Float rounding is exact big-Nat arithmetic by construction (F64.ofDecimal) and validated against fast_float2; the relaxed-language soundness direction is decided by correspondence only.',
  },
  "C03": {
-  "text": "Byte-level model of to_string/to_pretty_string (container_to_string walkers, escape_scalar_string) and an independent strict RFC 8259 parser in Lean. Per case: the real text equals the model text (correspondence), the Lean strict parser reads the model text back to a value equal to the document, re-encoding is byte-identical when non-negative integers are unsigned, pretty = compact modulo insignificant whitespace; on the Rust side serde_json and parse_value judge the real text, plus the two-space / one-member-per-line shape. ryu's output is validated per instance (grammar and exact value).",
-  "note": 'Defect D8 (control characters emitted raw) repaired in /repo. The general theorems (escape inverse, document-level) are being added; until then the claim rests on the per-case oracle.',
+  "text": "Theorems (unbounded, any nesting, all string contents): the byte-level model of to_string/to_pretty_string over the binary layout produces text that an independent strict RFC 8259 parser written in Lean accepts and reads back to a value equal to the document — identical, hence byte-identical re-encoding, when non-negative integers are stored unsigned; pretty equals compact after removing insignificant whitespace; escaper emits no control byte and is inverted by the strict string reader. The model text is tied to the real text by correspondence (to_string and to_pretty_string on every generated document, every byte 0..0x7f as value and key), ryu output is validated per instance, and serde_json + parse_value + an indentation-shape check judge the real text on the Rust side.",
+  "note": "Defect D8 (control characters emitted raw) repaired in /repo. Float formatting (ryu) is external and enters as the hypothesis fmtOK, discharged per instance by the goodFmt check in the driver.",
  },
  "C08": {
   "text": 'Model of selector.rs (position frontier with raw offsets, select_* walkers, i64 index arithmetic, filter_expr dispatch, writers) and a tree-level denotational spec evalPaths. Proved: item-mode writers only append, indices in range without overflow, unsupported expressions are errors not panics, scalar roots. Correspondence (model vs Rust) and spec oracle (evalPaths on the decoded tree, re-encoded, vs Rust) in all four modes over paths drawn from each document (names, wildcards, index lists/ranges with last, nested filters with &&/||/exists, $-rooted operands, predicates).',
